@@ -197,6 +197,20 @@ def build_case(cid, c, salt, client, server, extra=None):
         ops += m
         if marker:
             injected[adesc["name"]] = marker
+    # a raw request may put ";<another argument's key>=<data>" inside a query value: "&" alone separates pairs, so this is all
+    # data of THIS argument (and must never surface under the other argument's name, let alone in a safe channel)
+    if salt % 3 == 0:
+        qs = [(a, o) for a, o in zip(c["args"], c["out"]) if a["kind"] == "query"]
+        plain = [a for a, o in qs if o == "ok" and not a["typed"] and a.get("card") == "one" and isinstance(args.get(a["name"]), str)]
+        if plain and len(qs) >= 2:
+            u = plain[salt % len(plain)]
+            other = [a for a, _ in qs if a["name"] != u["name"]]
+            t = other[salt % len(other)]
+            base = args[u["name"]]
+            tail = "SMUGGLED%s%d" % (u["name"], salt)
+            args[u["name"]] = base + ";" + WIRE[ep][1][t["name"]][1] + "=" + tail
+            ops.append({"op": "set_query_raw", "key": WIRE[ep][1][u["name"]][1], "value": base + ";" + WIRE[ep][1][t["name"]][1] + "=" + tail})
+            injected.setdefault(u["name"], tail)
     doc = {"id": cid, "endpoint": WIRE[ep][0], "args": args, "ret": "R%d" % salt if ep != "OptBody" else {"a": 7},
            "client": client, "server": server, "mutations": ops, "chunk": 1 + salt % 3}
     if extra:
